@@ -34,7 +34,12 @@ type c12Case struct {
 	Plan [][]pcall `json:"plan"`
 }
 
-var c12Ops = []string{"commit", "multiprove", "multiprove", "multiverify", "ipa_in_domain", "ipa_out_domain", "multiscalar", "multiexp",
+// c12SharedPW is a freshly constructed weights object that every goroutine of the concurrent phase uses for its
+// "bary_fresh" calls (first use of lazily initialised per-object state under concurrency); in the sequential
+// reference phase it is nil and each call builds its own object.
+var c12SharedPW *ipa.PrecomputedWeights
+
+var c12Ops = []string{"bary_fresh", "groupops", "commit", "multiprove", "multiprove", "multiverify", "ipa_in_domain", "ipa_out_domain", "multiscalar", "multiexp",
 	"codec", "batch", "fr", "fr_canonical", "transcript", "mapfield"}
 
 func c12OpKinds() []string {
@@ -147,6 +152,9 @@ func c12Call(c pcall) []byte {
 		fmt.Fprint(&out, err)
 	case "multiexp":
 		n := 1 + c.N*8
+		if c.Flag {
+			n += 257 + int(c.Seed%200) // more than 256 points, a size that is most likely new to the process
+		}
 		pts := make([]banderwagon.Element, n)
 		sc := make([]fr.Element, n)
 		for i := range pts {
@@ -188,6 +196,20 @@ func c12Call(c pcall) []byte {
 		for _, b := range banderwagon.ElementsToBytes(list...) {
 			out.Write(b[:])
 		}
+		if c.Flag && n > 3 { // the same projective element several times, far apart in the list
+			list[n-1], list[n/2] = list[0], list[0]
+		}
+		res := make([]*fr.Element, len(list))
+		for i := range res {
+			res[i] = new(fr.Element)
+		}
+		_ = banderwagon.BatchMapToScalarField(res[:len(res)/2], list) // length mismatch: must fail cleanly
+		if err := banderwagon.BatchMapToScalarField(res, list); err == nil {
+			for _, r := range res {
+				rb := r.Bytes()
+				out.Write(rb[:])
+			}
+		}
 		_ = banderwagon.BatchNormalize(list)
 		for _, b := range banderwagon.BatchToBytesUncompressed(list...) {
 			out.Write(b[:])
@@ -227,6 +249,39 @@ func c12Call(c pcall) []byte {
 			b := ch.Bytes()
 			out.Write(b[:])
 		}
+	case "bary_fresh":
+		pw := c12SharedPW
+		if pw == nil {
+			pw = ipa.NewPrecomputedWeights()
+		}
+		z := hx.FrFromBig(big.NewInt(int64(256 + c.K + 1000*(c.N%3))))
+		for _, e := range pw.ComputeBarycentricCoefficients(z) {
+			eb := e.Bytes()
+			out.Write(eb[:])
+		}
+		f := hx.FrSliceFromBig(polySpec{Kind: "sparse", Seed: c.Seed, Idx: []int{c.K, 3}}.evals())
+		for _, e := range pw.DivideOnDomain(uint8(1+c.K%255), f) {
+			eb := e.Bytes()
+			out.Write(eb[:])
+		}
+	case "groupops": // many small group operations on private elements
+		a, b := cfg.SRS[c.K], cfg.SRS[(c.K+9)&255]
+		s := hx.FrFromBig(hx.ExpandFr(c.Seed, "c12g", 0))
+		var acc banderwagon.Element
+		acc.SetIdentity()
+		for i := 0; i < 300; i++ {
+			var t banderwagon.Element
+			t.Sub(&a, &b)
+			acc.Add(&acc, &t)
+			a.Double(&a)
+			b.Neg(&b)
+			if i%50 == 0 {
+				t.ScalarMul(&acc, &s)
+				acc.Sub(&t, &a)
+			}
+		}
+		ab := acc.Bytes()
+		out.Write(ab[:])
 	case "mapfield":
 		var sc fr.Element
 		e := cfg.SRS[c.K]
@@ -289,6 +344,8 @@ func evalC12(c c12Case, rec *hx.Rec) error {
 		}
 	}
 	runtime.GOMAXPROCS(gmp)
+	c12SharedPW = ipa.NewPrecomputedWeights()
+	defer func() { c12SharedPW = nil }()
 	raceBefore := raceLogSize()
 	got := make([][][]byte, len(c.Plan))
 	errs := make([]error, len(c.Plan))
